@@ -690,3 +690,12 @@ def request_timeout(ctx):
                         ctx.violate('%s:%s' % (mn, q), '`%s...` is sent without a timeout' % norm(c)[:70], c,
                                     'a provider that hangs blocks the whole query: it is never counted as failed and the providers after it are never asked')
     ctx.floor(n, 3, 'HTTP request call sites')
+
+
+@PROP.obligation('C20.loop-fresh')
+def loop_fresh(ctx):
+    """The fail-over loop and the provider clients work per provider / per item: in bitcoinlib/services/*.py no variable that is assigned
+    only inside a loop is read on a path of an iteration that did not assign it - an answer (or error) of the previous provider is never
+    taken for the current one."""
+    from .common_loopfresh import loop_fresh as run
+    run(ctx, sorted(mn for mn in ctx.repo.modules if mn.startswith('services.')), 'the answer of an earlier provider / item is served for the current one')
